@@ -37,8 +37,11 @@ import (
 	"github.com/vektah/gqlparser/v2"
 	"github.com/vektah/gqlparser/v2/ast"
 	"github.com/vektah/gqlparser/v2/gqlerror"
+	"github.com/vektah/gqlparser/v2/parser"
+	"github.com/vektah/gqlparser/v2/validator"
 
 	"github.com/99designs/gqlgen/graphql"
+	"github.com/99designs/gqlgen/graphql/errcode"
 	"github.com/99designs/gqlgen/graphql/handler"
 	"github.com/99designs/gqlgen/graphql/handler/extension"
 	"github.com/99designs/gqlgen/graphql/handler/lru"
@@ -49,10 +52,116 @@ import (
 var out = bufio.NewWriterSize(os.Stdout, 1<<20)
 
 var schema = gqlparser.MustLoadSchema(&ast.Source{Input: `
-	type Query { name: String! find(id: Int!): String! }
-	type Mutation { name: String! find(id: Int!): String! }
-	type Subscription { name: String! find(id: Int!): String! }
+	type Query { name: String! find(id: Int!): String! banned: String! }
+	type Mutation { name: String! find(id: Int!): String! banned: String! }
+	type Subscription { name: String! find(id: Int!): String! banned: String! }
 `})
+
+// a CUSTOM validation rule (gqlparser's rule list is process wide): the schema has the field, the rule rejects it
+func init() {
+	validator.AddRule("VerifNoBannedField", func(observers *validator.Events, addError validator.AddErrFunc) {
+		observers.OnField(func(walker *validator.Walker, field *ast.Field) {
+			if field.Name == "banned" {
+				addError(validator.Message("field banned by a custom rule"), validator.At(field.Position))
+			}
+		})
+	})
+}
+
+// ---------------------------------------------------------------- server configuration
+
+// scfg: the options of handler.Server that change WHICH error value reaches the transport
+type scfg struct {
+	TokenLimit int    `json:"parser_token_limit,omitempty"` // SetParserTokenLimit: the parser fails with a PLAIN error
+	NoSuggest  bool   `json:"disable_suggestion,omitempty"` // SetDisableSuggestion: validation rule swap
+	Presenter  string `json:"error_presenter,omitempty"`    // SetErrorPresenter: strip | recode | uncode | rewrap
+	Ctx        string `json:"context_mutator,omitempty"`    // an OperationContextMutator: complexity0 | complexity9 | deny-nocode | deny-custom | deny-validation
+}
+
+type denyExt struct{ code string }
+
+func (denyExt) ExtensionName() string                          { return "VerifDeny" }
+func (denyExt) Validate(schema graphql.ExecutableSchema) error { return nil }
+func (d denyExt) MutateOperationContext(ctx context.Context, opCtx *graphql.OperationContext) *gqlerror.Error {
+	e := gqlerror.Errorf("denied by an operation context mutator")
+	if d.code != "" {
+		errcode.Set(e, d.code)
+	}
+	return e
+}
+
+// ctxCode: the code of the error the configured context mutator refuses every request with ("" = it refuses none)
+func (c scfg) ctxCode() string {
+	switch c.Ctx {
+	case "complexity0": // every operation of the harness documents has complexity 1 > 0
+		return "COMPLEXITY_LIMIT_EXCEEDED"
+	case "deny-nocode":
+		return "nocode"
+	case "deny-custom":
+		return "VERIF_DENIED"
+	case "deny-validation":
+		return errcode.ValidationFailed
+	}
+	return ""
+}
+
+func applyCfg(srv *handler.Server, c scfg) {
+	if c.TokenLimit != 0 {
+		srv.SetParserTokenLimit(c.TokenLimit)
+	}
+	if c.NoSuggest {
+		srv.SetDisableSuggestion(true)
+	}
+	switch c.Presenter {
+	case "strip": // hides everything: the body has no code any more, the status must not follow
+		srv.SetErrorPresenter(func(ctx context.Context, err error) *gqlerror.Error {
+			return &gqlerror.Error{Message: "internal error"}
+		})
+	case "recode": // stamps a protocol code on EVERY error, in place (resolver errors, APQ misses …)
+		srv.SetErrorPresenter(func(ctx context.Context, err error) *gqlerror.Error {
+			e := graphql.DefaultErrorPresenter(ctx, err)
+			errcode.Set(e, errcode.ParseFailed)
+			return e
+		})
+	case "uncode": // removes the code in place
+		srv.SetErrorPresenter(func(ctx context.Context, err error) *gqlerror.Error {
+			e := graphql.DefaultErrorPresenter(ctx, err)
+			if e.Extensions != nil {
+				delete(e.Extensions, "code")
+			}
+			return e
+		})
+	case "rewrap":
+		srv.SetErrorPresenter(func(ctx context.Context, err error) *gqlerror.Error {
+			return &gqlerror.Error{Message: "wrapped: " + err.Error(), Extensions: map[string]any{"code": "WRAPPED"}}
+		})
+	}
+	switch c.Ctx {
+	case "complexity0":
+		srv.Use(extension.FixedComplexityLimit(0))
+	case "complexity9":
+		srv.Use(extension.FixedComplexityLimit(9))
+	case "deny-nocode":
+		srv.Use(denyExt{})
+	case "deny-custom":
+		srv.Use(denyExt{"VERIF_DENIED"})
+	case "deny-validation":
+		srv.Use(denyExt{errcode.ValidationFailed})
+	}
+}
+
+// effective: what the configured server makes of the document. With a parser token limit the class of a text is
+// the parser's own answer under that limit (library code): no error - as labelled; a *gqlerror.Error - P; a plain
+// error (`exceeded token limit`) - PL.
+func (k kase) effective() kase {
+	if k.cfg.TokenLimit > 0 {
+		if _, err := parser.ParseQueryWithTokenLimit(&ast.Source{Input: k.d.text}, k.cfg.TokenLimit); err != nil {
+			_, isGql := err.(*gqlerror.Error)
+			k.d = doc{class: "P", plain: !isGql, text: k.d.text, vars: k.d.vars}
+		}
+	}
+	return k
+}
 
 // ---------------------------------------------------------------- executable schema that records
 
@@ -91,6 +200,7 @@ type doc struct {
 	ops   []op
 	text  string
 	vars  bool // operations declare a required variable $id
+	plain bool // class P: the parser's error is a plain error (token limit), not a *gqlerror.Error
 }
 
 type accPart struct{ raw, class string } // class "!" = mime.ParseMediaType fails
@@ -113,6 +223,7 @@ type kase struct {
 	qcache  bool
 	// the envelope carries an operationName key even when the name is empty (`"operationName": ""`)
 	opExplicit bool
+	cfg        scfg
 }
 
 func hdrMap(t tcfg) map[string][]string {
@@ -188,6 +299,10 @@ func badDocs() []doc {
 		{class: "I", text: "query a { name } query a { name }", ops: []op{{"query", "a"}, {"query", "a"}}},
 		{class: "V", text: ""}, // no operation provided
 		{class: "V", text: "fragment f on Query { name }"},
+		{class: "I", text: "{ banned }", ops: []op{{"query", ""}}},                    // rejected by the CUSTOM validation rule only
+		{class: "I", text: "mutation m { banned }", ops: []op{{"mutation", "m"}}},     // "
+		{class: "I", text: "{ nam }", ops: []op{{"query", ""}}},                       // FieldsOnCorrectType with a suggestion (the rule SetDisableSuggestion swaps)
+		{class: "I", text: "query q { name ... on Querry { name } }", ops: []op{{"query", "q"}}}, // unknown type with a suggestion
 	}
 }
 
@@ -385,6 +500,9 @@ func (k *kase) build() built {
 	}
 	b.req = r
 	b.descr = map[string]any{"method": kk.method, "target": target, "headers": r.Header, "body": string(body), "server": kk.srv}
+	if kk.cfg != (scfg{}) {
+		b.descr["config"] = kk.cfg
+	}
 	return b
 }
 
@@ -493,6 +611,7 @@ func newServer(k kase) (*handler.Server, *recSchema) {
 	for _, t := range k.srv {
 		srv.AddTransport(mkTransport(t))
 	}
+	applyCfg(srv, k.cfg)
 	if k.qcache {
 		srv.SetQueryCache(lru.New[*ast.QueryDocument](16))
 	}
@@ -522,6 +641,7 @@ func serveOne(srv http.Handler, es *recSchema, k kase) (string, string, map[stri
 	ncase++
 	es.log = nil
 	es.execErr = k.execErr
+	k = k.effective()
 	b := k.build()
 	w := &recorder{hdr: http.Header{}}
 	func() {
@@ -580,6 +700,9 @@ func abstractOf(k kase, b built) string {
 	case "mismatch":
 		param = "nocode"
 	}
+	if c := k.cfg.ctxCode(); c != "" && param == "0" {
+		param = "ctx:" + c // reached only by a request nothing else stops (the model's gate decides that)
+	}
 	up, vo, ee := "0", "0", "ok"
 	if k.upgrade {
 		up = "1"
@@ -609,6 +732,9 @@ func docTok(d doc, withOps bool) string {
 			p[i] = opTok(o.kind, o.name)
 		}
 		return d.class + strings.Join(p, ":")
+	}
+	if d.class == "P" && d.plain {
+		return "PL"
 	}
 	return d.class
 }
